@@ -137,7 +137,8 @@ func collectRaces(agg *Agg, work string) {
 				agg.Inconcl["race report between harness functions only: "+r.Sig()]++
 				continue
 			}
-			e0, e1 := r.Entries[0], r.Entries[1]
+			// both application print calls are one class of goroutine
+			e0, e1 := strings.Replace(r.Entries[0], ".PrintTransientf", ".Printf", 1), strings.Replace(r.Entries[1], ".PrintTransientf", ".Printf", 1)
 			if e0 == "" {
 				e0 = "harness"
 			}
